@@ -133,6 +133,35 @@ mod hashbrown_tables {
 
 	pub use hasher::*;
 
+	// Verification hook H1: with `_verif_hooks` every LDK hash table uses fixed SipHash keys so
+	// that iteration order (and hence message/event order) is reproducible across runs. The
+	// explicit `use` below shadows the glob re-export of `hasher::RandomState` above.
+	#[cfg(all(feature = "_verif_hooks", feature = "std", not(test), not(fuzzing)))]
+	mod verif_hasher {
+		#![allow(deprecated)]
+		use core::hash::{BuildHasher, SipHasher};
+
+		/// Fixed-key [`BuildHasher`] used by the verification build.
+		#[derive(Clone, Copy, Default)]
+		pub struct RandomState;
+
+		impl RandomState {
+			/// Constructs the fixed-key state.
+			pub fn new() -> RandomState {
+				RandomState
+			}
+		}
+
+		impl BuildHasher for RandomState {
+			type Hasher = SipHasher;
+			fn build_hasher(&self) -> SipHasher {
+				SipHasher::new_with_keys(0x5645_5249_465f_4831, 0x6c64_6b5f_6d63_5f31)
+			}
+		}
+	}
+	#[cfg(all(feature = "_verif_hooks", feature = "std", not(test), not(fuzzing)))]
+	pub use verif_hasher::RandomState;
+
 	/// The HashMap type used in LDK.
 	pub type HashMap<K, V> = hashbrown::HashMap<K, V, RandomState>;
 	/// The HashSet type used in LDK.
